@@ -1369,6 +1369,13 @@ func runStep(c Case, sq *seqState) (out Out) {
 	target := reflect.New(rt)
 	if c.Static == "self" {
 		target = reflect.ValueOf(&selfReq{})
+	} else if c.Static != "" {
+		st, ok := staticTypes[c.Static]
+		if !ok {
+			out.Fail = "unknown static type " + c.Static
+			return
+		}
+		target = reflect.New(st)
 	}
 	selfBefore := selfCalls
 
